@@ -344,7 +344,8 @@ func c09TmplWord(cr c09Cred) string {
 
 func c09RunConfig(c *Ctx, l *lib.Lean, rng *rand.Rand, k c09Cfg, nmut int, wants []c09Want) error {
 	admin := "adm" + c09RandToken(rng, 20)
-	rig, err := c09NewRig(lib.StackOpts{File: lib.TempDB("c09-" + k.bits() + ".db"), UseAuth: k.auth, AdminToken: admin, Profiling: k.prof}, false)
+	dbFile := lib.TempDB("c09-" + k.bits() + ".db")
+	rig, err := c09NewRig(lib.StackOpts{File: dbFile, UseAuth: k.auth, AdminToken: admin, Profiling: k.prof}, false)
 	if err != nil {
 		return err
 	}
@@ -576,6 +577,7 @@ func c09RunConfig(c *Ctx, l *lib.Lean, rng *rand.Rand, k c09Cfg, nmut int, wants
 				Op:  lines[i] + "  # header " + fmt.Sprintf("%q", s.hdr), Impl: s.impl, Model: model})
 		}
 	}
+	c09LockedStore(c, rig, dbFile, k, toks)
 	return nil
 }
 
